@@ -58,6 +58,19 @@ Theorem C04_index_reencode_layout : forall (d : digest) (b : bytes) (i : index) 
 Proof. exact index_reencode_layout. Qed.
 Print Assumptions C04_index_reencode_layout.
 
+(* Re-encoding heals.  IndexFromReader deliberately does not look at the index element's SIZE field
+   (FormatDecoder.Next has no size check for CaFormatIndex) nor at the tail's index-offset / table-size
+   words, so files in which those words are damaged are accepted; what WriteTo then writes for the
+   decoded index is canonical again: 48-byte index element, tail (48, uint64(length - 48)). *)
+Theorem C04_reencode_canonical : forall (d : digest) (b : bytes) (i : index) (rest : bytes),
+  wf_bytes b -> decode_index_rest d b = Ok (i, rest) ->
+  parse_layout (encode_index i) =
+    Some (mkLayout (ix_flags i) (ix_min i) (ix_avg i) (ix_max i) (table_items 0 (ix_chunks i))
+                   48 (u64 (N.of_nat (length (encode_index i) - 48)))) /\
+  word_at (encode_index i) 0 = 48.
+Proof. exact reencode_canonical. Qed.
+Print Assumptions C04_reencode_canonical.
+
 (* Truncation: every strict prefix of ANY file that IndexFromReader accepts and reads to its last
    byte is rejected ... *)
 Theorem C04_index_rejects_prefix_of_accepted : forall (d : digest) (b : bytes) (i : index),
@@ -256,3 +269,14 @@ Example C04_shared_reader_refuted :
   remote_store_index FreshReader (fun b => match decode_index SHA512_256 b with Ok _ => true | _ => false end)
                      3 [AFail] ex_index = Some (encode_index ex_index).
 Proof. vm_compute. repeat split; reflexivity. Qed.
+
+(* the unchecked words are really unchecked: an index element claiming 56 bytes and a tail with foreign
+   sizes is accepted, and re-encoding gives the canonical file back *)
+Example C04_damaged_unchecked_words_accepted :
+  let good := encode_index ex_index in
+  let bad := le64 56 ++ skipn 8 (firstn 200 good) ++ le64 7 ++ le64 9 ++ skipn 216 good in
+  length bad = 224%nat /\ bad <> good /\
+  decode_index SHA512_256 bad = Ok ex_index /\ encode_index ex_index = good.
+Proof.
+  vm_compute. repeat split; try reflexivity. intros E. inversion E.
+Qed.
